@@ -1834,3 +1834,50 @@ pub mod widthfx {
         Ok(())
     }
 }
+
+// ---------------------------------------------------------------- R-TAGKIND.record
+pub mod recfx {
+    #[derive(Clone, Copy, PartialEq)]
+    pub enum Stage { None, Packed }
+    pub struct Rec { pub bytes: Vec<u8>, pub n: usize, pub packed: bool, pub stage: Stage }
+    fn pack(d: &[u8], out: &mut Vec<u8>) { out.extend(d.iter().map(|b| b ^ 0x55)); }
+    pub struct Store { pub recs: Vec<Rec>, pub stage: Stage }
+    impl Store {
+        pub fn ok_put(&mut self, data: &[u8]) {
+            let mut p = Vec::new();
+            pack(data, &mut p);
+            let stage = self.stage;
+            let packed = p.len() < data.len();
+            let rec = Rec {
+                bytes: if packed { p } else { data.to_vec() },
+                n: data.len(),
+                packed,
+                stage: if packed { stage } else { Stage::None },
+            };
+            self.recs.push(rec);
+        }
+        pub fn ok_put2(&mut self, data: &[u8]) {
+            let mut p = Vec::new();
+            pack(data, &mut p);
+            let rec = if p.len() < data.len() {
+                Rec { bytes: p, n: data.len(), packed: true, stage: self.stage }
+            } else {
+                Rec { bytes: data.to_vec(), n: data.len(), packed: false, stage: Stage::None }
+            };
+            self.recs.push(rec);
+        }
+        pub fn bad_put(&mut self, data: &[u8]) {
+            let mut p = Vec::new();
+            pack(data, &mut p);
+            let stage = self.stage;
+            let packed = p.len() < data.len();
+            let rec = Rec {
+                bytes: if packed { p } else { data.to_vec() },
+                n: data.len(),
+                packed,
+                stage,
+            };
+            self.recs.push(rec);
+        }
+    }
+}
